@@ -261,6 +261,15 @@ class GenUnit(corr.Unit):
                     want = 1 if (cur > 1e-5 or res_ < -1e-5) else 0
                     if int(r[ci["charge"]]) != want:
                         v.append(("C13/charge-flag", "row %d charge flag %s but curtailment %s / residual load %s remain: %s" % (t, r[ci["charge"]], cur, res_, d)))
+            # the "old" columns are the given grid situation aligned with the scenario: a series that starts k steps before the
+            # scenario (timestamps given, 0 < k < length) is used from index k, every other series from its first value; steps
+            # beyond the series are zero
+            k_ = case["offset"] if (case["with_ts"] and 0 < case["offset"] < len(case["grid"])) else 0
+            exp_r, exp_c = (case["grid"][t + k_] if t + k_ < len(case["grid"]) else (0, 0))
+            ro_, co_ = float(r[h.index("residual load old [kW]")]), float(r[h.index("curtailment old [kW]")])
+            if abs(ro_ - exp_r) > 2e-3 or abs(abs(co_) - abs(exp_c)) > 2e-3:
+                v.append(("C13/grid-alignment", "row %d: residual/curtailment taken from the grid file are %s/%s, the series gives %s/%s at that time: %s"
+                          % (t, ro_, co_, exp_r, exp_c, d)))
             # what remains = what was there + what the schedule draws: (residual - curtailment) moves by exactly the schedule
             ro, co = float(r[h.index("residual load old [kW]")]), float(r[h.index("curtailment old [kW]")])
             if abs((res_ - cur) - (ro - co) - sv) > 5e-3:
